@@ -13,6 +13,7 @@ import (
 //     that survive (no enclosing frame failed): the only way value may leave the system (A.6);
 //   - the gas the top-level call/create consumed (before the refund), and the refund counter at that point;
 //   - which of the action opcodes really executed (vacuity guards, classification).
+//
 // Frames: CaptureEnter pushes, CaptureExit pops; a frame that exits with an error discards the events
 // recorded below it, exactly as the state journal discards its effects.
 type burnTracer struct {
